@@ -8,7 +8,7 @@ EXTRA_PROPS = [("B3.Props.C02T", "B3/Props/C02T.lean"), ("B3.Props.CapT", "B3/Pr
 RULE = ("reader histories: a root state (chunk root or parent root, any mode, or merge_subtrees_root_xof) then 1-25 ops from "
         "{fill n, read n, setpos p, seek start/cur/end v, pos, clone}; positions from the boundary set {0,1,31,32,63,64,65, "
         "2^32*64 +- d, 2^38 +- d, 2^63, 2^64-1-k}; sizes {0..130, 1023..1025, 64j, 64j+-1, <= 40000}; reads keep p+n <= 2^64-1; "
-        "non-trivial = at least one fill after a seek; distinct = distinct script")
+        "default (assembly) and pure (Rust intrinsics) builds; inputs of the Rust harness end flush against an inaccessible page; non-trivial = at least one fill after a seek; distinct = distinct script")
 ASSUMPTIONS = ["xof_many kernels satisfy the kernel contract (C05)"]
 NOT_PROVED = []
 
@@ -128,8 +128,11 @@ def stages(tier, seed, witness_search=False):
     for p in (PLATFORMS if tier != "quick" else ["avx512", "portable"]):
         scripts += boundary_grid(rng, p, 24 if tier == "quick" else 40)
     # the Lean driver knows `fill` only; `read` is the same model op
-    return [LineStage("readers", scripts, normalize=normalize)]
+    # the extended output goes through compress_xof / xof_many of whichever kernel family the build mounts: the same histories
+    # (a third of them in the quick tier) against the Rust-intrinsics build as well
+    return [LineStage("readers", scripts, normalize=normalize),
+            LineStage("readers-pure-build", scripts if tier != "quick" else scripts[::3], features=("pure",), normalize=normalize)]
 
 
 def replay(d, lean_exe):
-    return replay_line(d, lean_exe, normalize=normalize)
+    return replay_line(d, lean_exe, features=("pure",) if d.get("stage") == "readers-pure-build" else (), normalize=normalize)
